@@ -52,6 +52,9 @@ def classify(rc, out):
     if "VERIF-DEADLOCK" in out or "test timed out" in out or rc == 124:
         i = max(out.find("VERIF-DEADLOCK"), out.find("test timed out"), 0)
         return "deadlock", out[i:i + 6000]
+    if "VERIF-GAUGE" in out:
+        i = out.find("VERIF-GAUGE")
+        return "gauge", out[i:i + 600]
     if "VERIF-ADMIN" in out:
         i = out.find("VERIF-ADMIN")
         return "admin-consistency", out[max(0, i - 200):i + 1500]
